@@ -345,6 +345,38 @@ def run(chk, b, tier):
                 chk.violation("C06/cli/mark-mismatch/generated-refgroup-forest", {"argv": argv, **info})
             else:
                 chk.violation("C06/cli/run-failed/generated-refgroup-forest", {"argv": argv, **info})
+    # thousands of references (more than any internal batch): each is categorised exactly once, under every schedule
+    nmany = 6000 if tier == "quick" else 30000
+    blob = G.Blob(b"x\n")
+    c0 = G.Commit(G.Tree([G.Entry(G.FILE, b"f", blob)]), [], msg=b"only\n")
+    mm = G.Model()
+    for i in range(nmany):
+        mm.refs["refs/%s/n%05d" % (["heads", "tags", "remotes/o", "misc"][i % 4], i)] = c0
+    gmany = G.write_model(mm, os.path.join(scratch, "many"), packed_refs=True)
+    for k in range(6 if tier == "quick" else 20):
+        seq = [[], [["--no-tags"]], [["--include", "refs/heads"], ["--exclude", "/refs/heads/n000.*/"]]][k % 3]
+        argv = ["--json", "--no-progress", "--show-refs"] + [a for o in seq for a in o]
+        r = R.sizer(sz, gmany, argv, env={"GOMAXPROCS": ["1", "2", "4", "16"][k % 4]}, tmpdir=tmp, timeout=300)
+        chk.count()
+        if r.rc != 0:
+            chk.violation("C06/cli/run-failed/many-references", {"argv": argv, "stderr": r.err[-300:]})
+            continue
+        _, marks, _ = P.parse_stderr(r.err)
+        names = [n.decode() for _, n in marks]
+        if len(names) != len(set(names)) or set(names) != set(mm.refs):
+            chk.violation("C06/cli/many-references/not-each-listed-exactly-once",
+                          {"argv": argv, "listed": len(names), "distinct": len(set(names)), "want": len(mm.refs)})
+            continue
+        rules = [S.parse_opt(o) for o in seq]
+        forest0 = S.Forest([])
+        bad = [n for plus, nb in marks for n in [nb.decode()] if plus != S.selected(rules, 0, n, forest0)]
+        if bad:
+            chk.violation("C06/cli/mark-mismatch/many-references", {"argv": argv, "refs": bad[:5]})
+        js, _ = P.parse_json(r.out)
+        if js and js.get("reference_count") != len(mm.refs):
+            chk.violation("C06/cli/many-references/reference_count", {"got": js.get("reference_count")})
+        chk.nontrivial(("many", k))
+    chk.cov["many_references_runs"] = {"references": nmany}
     # API level: the match relation
     drv = b.apidrv()
     names, cases = api_filter_cases(rng, 1500 if tier == "quick" else 30000)
